@@ -16,7 +16,7 @@ use serde_json::{json, Value};
 
 pub const BASE_MS: u64 = 1_700_000_000_000;
 pub const UNIT_MS: u64 = 1000;
-pub const TRACE_W: i64 = 64;
+pub const TRACE_W: i64 = 1024;
 
 pub struct Worker {
     child: Child,
@@ -1077,6 +1077,10 @@ impl Run {
             }
         }
         let mut evs = std::mem::take(&mut self.events);
+        if map.values().any(|v| *v == -8) {
+            // more ids inside one clock unit than the trace encoding has room for: not judged
+            evs = vec![json!({"e": "skipped_overflow"})];
+        }
         for e in evs.iter_mut() {
             walk(e, &map);
         }
